@@ -481,8 +481,14 @@ func TestVerifC12(t *testing.T) {
 	r.Note("onetime_preemption_bound", bound)
 	for _, mix := range []string{"onetime", "cookie", "mixed"} {
 		for _, n := range []int{2, 3} {
+			if vsched.FreePass(r.Add, func() vsched.Scenario { return c12OneTimeScenario(t, r, n, mix) }) {
+				continue // race-detector pass: the same thread bodies, free-running, in a binary built with -race
+			}
 			vsched.Explore(r, mkB(n, mix, bound))
 		}
+	}
+	if vsched.FreeRuns() > 0 {
+		return // the race-detector pass covers the concurrent part (b) only
 	}
 	// (c)
 	fidx := 0
